@@ -744,8 +744,12 @@ def stub_from_reader(eng, ctx, args):
        either Err(arbitrary de::Error) or Ok(arbitrary Value) consuming k <= len bytes.
        The same byte string (identity) gives the same outcome on a path.  Bytes produced by the
        writer stub on this path parse back to the tree that was written (parse(enc(v)) = v)."""
-    rd = args[0]                      # &mut &[u8]
-    inner = rd.get()                  # &[u8]
+    rd = args[0]                      # the reader: `&mut &[u8]` (advanced in place) or `&[u8]` by value
+    inner = rd.get()
+    if not isinstance(inner, Ref):
+        # reader passed by value: the caller's slice is not advanced
+        rd = Ref(Cell(rd))
+        inner = rd.get()
     seq = deref(inner)
     side = ctx.side
     if seq.elems is not None and all(not is_sym(x.v) for x in seq.elems):
@@ -760,28 +764,13 @@ def stub_from_reader(eng, ctx, args):
         return OK(concrete.tree_to_value(tree))
     ident = seq.opaque.ident if seq.elems is None else ("conc", id(seq))
     ctx.side.setdefault("parse_calls", []).append(ident)
-    depth = side.get("parse_depth", 0)
     # written on this path?
     written = side.get("written", {})
     if seq.elems is None and ident in written:
         tree = deep_clone(written[ident])
         rd.set(Ref(Cell(VecV([], None, "vec"))))
         return OK(tree)
-    cache = side.setdefault("parsed", {})
-    if ident in cache:
-        outcome = cache[ident]
-    else:
-        node = ctx.input_node_for_bytes(seq, ident)
-        ok = ctx.choose(2, "parse-ok@" + str(ident)) == 0
-        if ok:
-            exact = ctx.choose(2, "parse-consumes-all@" + str(ident)) == 0
-            outcome = ("ok", node, exact)
-        else:
-            kind = ctx.choose(4, "parse-err-kind")
-            outcome = ("err", kind, None)
-        cache[ident] = outcome
-        if node is not None:
-            node.parse_outcome = outcome
+    outcome = decide_parse(ctx, seq)
     if outcome[0] == "err":
         k = ["Io", "Syntax", "Semantic", "RecursionLimitExceeded"][outcome[1]]
         if k == "Io":
@@ -801,6 +790,30 @@ def stub_from_reader(eng, ctx, args):
         rd.set(Ref(Cell(rest)))
     from values import Lazy as _L
     return OK(_L(node))
+
+
+def decide_parse(ctx, seq):
+    """Outcome of parsing a byte string, decided once per identity and path:
+       ('ok', node, consumed_everything) | ('err', kind, None)."""
+    ident = seq.opaque.ident if seq.elems is None else ("conc", id(seq))
+    cache = ctx.side.setdefault("parsed", {})
+    if ident in cache:
+        return cache[ident]
+    node = ctx.input_node_for_bytes(seq, ident)
+    owner = ctx.side.get("bytes_nodes", {}).get(ident)
+    ok = ctx.choose(2, "parse-ok@" + str(ident)) == 0
+    if ok:
+        exact = ctx.choose(2, "parse-consumes-all@" + str(ident)) == 0
+        outcome = ("ok", node, exact)
+    else:
+        kind = ctx.choose(4, "parse-err-kind")
+        outcome = ("err", kind, None)
+    cache[ident] = outcome
+    if owner is not None:
+        owner.parse_outcome = outcome
+    elif node is not None:
+        node.parse_outcome = outcome
+    return outcome
 
 
 def stub_into_writer(eng, ctx, args):
